@@ -572,6 +572,13 @@ func Copy(x interface{}) interface{} {
 			acc[k] = Copy(v)
 		}
 		return acc
+	case []interface{}:
+		// Arrays are as writable (by a script, say) as maps are.
+		acc := make([]interface{}, len(vv))
+		for i, v := range vv {
+			acc[i] = Copy(v)
+		}
+		return acc
 	default:
 		return x
 	}
